@@ -2,6 +2,7 @@
 symbolic (solver-chosen) enum discriminants.  `parse_unary` (operand parsing), the token iterator and AST/span
 construction are contracts; `parse_expr`, `peek`, `advance`, `consume`, `reject_chained_comparison`,
 `infix_binding_power`, `is_comparison` and the derived `Token == Token` are the repository's code."""
+import os
 import time
 import z3
 
@@ -107,11 +108,11 @@ def run(sess):
         ops = [t for t in c06.REF if t != 'Not']
         opidx = [toks.index(t) for t in ops]
         name_of = {toks.index(t): t for t in ops}
-        T1, T2 = z3.Int('T1'), z3.Int('T2')
+        T1, T2, T3 = z3.Int('T1'), z3.Int('T2'), z3.Int('T3')
         dom = lambda T: z3.Or([T == i for i in opidx])
         ident = lambda n: Enum('Identifier', [n], 'Token')
         NOT, IN = Enum('Not', [], 'Token'), Enum('In', [], 'Token')
-        s1, s2 = SymEnum('Token', T1), SymEnum('Token', T2)
+        s1, s2, s3 = SymEnum('Token', T1), SymEnum('Token', T2), SymEnum('Token', T3)
         streams = [
             ('a T1 b T2 c', [ident('a'), s1, ident('b'), s2, ident('c')], [dom(T1), dom(T2)]),
             ('not a T1 b', [NOT, ident('a'), s1, ident('b')], [dom(T1)]),
@@ -121,10 +122,16 @@ def run(sess):
             ('not a not in b', [NOT, ident('a'), NOT, IN, ident('b')], []),
             ('not not a T1 b', [NOT, NOT, ident('a'), s1, ident('b')], [dom(T1)]),
         ]
+        expected = len(ops) * len(ops) + 5 * len(ops) + 1
+        if sess.tier == 'thorough' or os.environ.get('VERIF_C06_THREE') == '1':
+            # three solver-chosen operators: 20^3 instances, every one enumerated from the paths of the real loop
+            streams.append(('a T1 b T2 c T3 d', [ident('a'), s1, ident('b'), s2, ident('c'), s3, ident('d')], [dom(T1), dom(T2), dom(T3)]))
+            expected += len(ops) ** 3
+            ob.bounds = 'token streams of at most 7 tokens: up to four identifier operands, up to three symbolic binary-operator tokens (all 20 single-token operators, 8000 triples), prefix `not`, infix `not in`; operands are single identifiers'
         nwit = 0
         for label, stream, conds in streams:
             ex = sess.executor(True, extra=contracts(toks))
-            ex.max_depth = 40
+            ex.max_depth = 40 if 'T3' not in label else 60
             fn = ex.get_fn(sess.db.find_in_file('parser_rd.rs', 'parse_expr'))
             first = Struct([Opaque('start'), stream[0], Opaque('end')])
             rec = [Opaque(f'ParserRd.{n}') for n in FIELDS]
@@ -146,11 +153,13 @@ def run(sess):
                         break
                     t1v = model_int(model, T1) if 'T1' in label else None
                     t2v = model_int(model, T2) if 'T2' in label else None
-                    blocked.append(z3.Or(*([T1 != t1v] if t1v is not None else []), *([T2 != t2v] if t2v is not None else []))) if (t1v is not None or t2v is not None) else blocked.append(z3.BoolVal(False))
+                    t3v = model_int(model, T3) if 'T3' in label else None
+                    blocked.append(z3.Or(*([T1 != t1v] if t1v is not None else []), *([T2 != t2v] if t2v is not None else []), *([T3 != t3v] if t3v is not None else []))) if (t1v is not None or t2v is not None) else blocked.append(z3.BoolVal(False))
                     n1 = name_of.get(t1v)
                     n2 = name_of.get(t2v)
-                    src = label.replace('T1', c06.REF[n1][2] if n1 else '').replace('T2', c06.REF[n2][2] if n2 else '')
-                    want = reference_tree(label, n1, n2)
+                    n3 = name_of.get(t3v)
+                    src = label.replace('T1', c06.REF[n1][2] if n1 else '').replace('T2', c06.REF[n2][2] if n2 else '').replace('T3', c06.REF[n3][2] if n3 else '')
+                    want = reference_tree(label, n1, n2, n3)
                     consumed_all = m[CUR] >= len(stream) and not (isinstance(m[P].fields[FIELDS.index('current')], Enum) and m[P].fields[FIELDS.index('current')].variant == 'Some')
                     if v.variant == 'Ok':
                         got = tree(ex, m, v.fields[0])
@@ -169,7 +178,6 @@ def run(sess):
                 if r == 'sat':
                     ob.fail({'kind': 'bp', 'what': 'panic in parse_expr: ' + pn.msg, 't1': 'Plus', 't2': 'Plus', 'src': label, 'want': 'no panic'})
             sess.absorb(ex)
-        expected = len(ops) * len(ops) + 5 * len(ops) + 1
         ob.designated = {'all operator pairs reached': nwit >= expected}
         if nwit < expected:
             ob.inconclusive(f'only {nwit} (stream, operator) instances reached a result (vacuity)')
@@ -186,7 +194,40 @@ def bop(t):
     return c06.REF[t][0]
 
 
-def reference_tree(label, n1, n2):
+def ref_general(operands, opnames):
+    """reference grammar for `x0 o1 x1 o2 x2 ...`: operator-precedence parse over the precedence classes of the
+    Starlark spec (all binary operators left-associative), written as a shunting-yard over levels, not binding powers;
+    a comparison whose operand is an unparenthesised comparison is a syntax error"""
+    from . import c06
+    lvl = lambda t: c06.REF[t][1]
+    out, stack = [operands[0]], []
+
+    def reduce():
+        o = stack.pop()
+        r = out.pop()
+        l = out.pop()
+        out.append((l, o, r))
+    for o, x in zip(opnames, operands[1:]):
+        while stack and lvl(stack[-1]) >= lvl(o):
+            reduce()
+        stack.append(o)
+        out.append(x)
+    while stack:
+        reduce()
+    bad = []
+
+    def show(t):
+        if isinstance(t, str):
+            return t
+        l, o, r = t
+        if lvl(o) == 4 and any(not isinstance(k, str) and lvl(k[1]) == 4 for k in (l, r)):
+            bad.append(o)
+        return f'({show(l)} {bop(o)} {show(r)})'
+    s = show(out[0])
+    return 'error' if bad else s
+
+
+def reference_tree(label, n1, n2, n3=None):
     """the reference grammar's grouping, operators written as BinOp names"""
     from . import c06
     lvl = lambda t: c06.REF[t][1]
@@ -199,7 +240,10 @@ def reference_tree(label, n1, n2):
         if lvl(o2) > lvl(o1):
             return f'({a} {bop(o1)} ({b} {bop(o2)} {c}))'
         return f'(({a} {bop(o1)} {b}) {bop(o2)} {c})'
+    if label == 'a T1 b T2 c T3 d':
+        return ref_general(['a', 'b', 'c', 'd'], [n1, n2, n3])
     if label == 'a T1 b T2 c':
+        assert two('a', n1, 'b', n2, 'c') == ref_general(['a', 'b', 'c'], [n1, n2])
         return two('a', n1, 'b', n2, 'c')
     if label == 'not a T1 b':
         return f'(not (a {bop(n1)} b))' if lvl(n1) > c06.NOT_LEVEL else f'((not a) {bop(n1)} b)'
